@@ -180,9 +180,20 @@ func (ge *genEnv) close() { os.RemoveAll(ge.work) }
 
 // runReal runs the generator binary once on the description in a fresh directory.
 func (ge *genEnv) runReal(dir string, desc string) (state, msg, outFile string, out []byte) {
+	return ge.runRealOver(dir, desc, "", nil)
+}
+
+// runRealOver: as runReal, with a file already present in the output directory (the output of an earlier run for a
+// longer description, say): what the generator writes must replace it completely
+func (ge *genEnv) runRealOver(dir string, desc string, preName string, pre []byte) (state, msg, outFile string, out []byte) {
 	os.RemoveAll(dir)
 	if err := os.MkdirAll(dir, 0o755); err != nil {
 		return "harness", err.Error(), "", nil
+	}
+	if preName != "" {
+		if err := os.WriteFile(filepath.Join(dir, preName), pre, 0o660); err != nil {
+			return "harness", err.Error(), "", nil
+		}
 	}
 	in := filepath.Join(dir, "x.varlink")
 	if err := os.WriteFile(in, []byte(desc), 0o644); err != nil {
@@ -484,7 +495,9 @@ func runGen(e *env, compileN int) error {
 			d1 := filepath.Join(ge.work, fmt.Sprintf("c%d-a", c.idx))
 			d2 := filepath.Join(ge.work, fmt.Sprintf("c%d-b", c.idx))
 			c.real, c.realMsg, c.outFile, c.realOut = ge.runReal(d1, c.dc.text)
-			st2, _, of2, out2 := ge.runReal(d2, c.dc.text)
+			// the second run finds the output file of an earlier, longer generation in its directory
+			stale := append(append([]byte{}, c.realOut...), bytes.Repeat([]byte("// left over from an earlier run\n"), 400)...)
+			st2, _, of2, out2 := ge.runRealOver(d2, c.dc.text, c.outFile, stale)
 			c.twice = st2 == c.real && of2 == c.outFile && bytes.Equal(out2, c.realOut)
 			os.RemoveAll(d1)
 			os.RemoveAll(d2)
